@@ -127,6 +127,18 @@ func TraverseAST(node ast.Node, env *Pass1) ast.Node {
 	case *ast.ExportSymStmt: // GLOBAL ディレクティブ
 		// フィールド名を Symbols に修正
 		for _, factor := range n.Symbols {
+			// a name listed twice (GLOBAL a ... GLOBAL a) is one symbol
+			// (processGLOBAL makes the same check)
+			alreadyExists := false
+			for _, existingSymbol := range env.GlobalSymbolList {
+				if existingSymbol == factor.Value {
+					alreadyExists = true
+					break
+				}
+			}
+			if alreadyExists {
+				continue
+			}
 			env.GlobalSymbolList = append(env.GlobalSymbolList, factor.Value)
 			log.Printf("debug: Added global symbol '%s'", factor.Value)
 		}
